@@ -19,7 +19,7 @@ from sim.node import LineTracer, SimClock, drop_scratch, fork_call, make_scratch
 from worlds import problems
 
 NAMES = ["Project", "Project", "Site", "P2", "Plant"]
-FORMS = ["dict_shared", "dict_copy", "model_fresh", "model_shared"]
+FORMS = ["dict_shared", "dict_copy", "model_fresh", "model_shared", "dict_of_models"]
 TIMING_EXCLUDE = ("OpenPinch.utils.decorators:_function_stats",)
 FP_EXCLUDE_SUFFIX = ("__slotnames__",)
 
@@ -65,9 +65,39 @@ def diff_class(node_text, oracle_text):
     return paths[0] if paths else "text_only"
 
 
+def zone_digest(zone, depth=0):
+    """Digest of everything numeric hanging off an analysed Zone tree (problem tables of every target, recursively)."""
+    import hashlib
+
+    import numpy as np
+
+    h = hashlib.blake2b(digest_size=10)
+    if zone is None or depth > 12:
+        return "none"
+    for key in sorted(getattr(zone, "targets", {}) or {}):
+        t = zone.targets[key]
+        h.update(str(key).encode())
+        for attr in ("pt", "pt_real"):
+            tb = getattr(t, attr, None)
+            data = getattr(tb, "data", None)
+            if isinstance(data, np.ndarray):
+                h.update(str(data.shape).encode())
+                h.update(np.ascontiguousarray(np.nan_to_num(data.astype(float), nan=-9.87654321e300)).tobytes())
+        for attr in ("hot_utility_target", "cold_utility_target", "heat_recovery_target", "utility_cost", "area"):
+            h.update(repr(getattr(t, attr, None)).encode())
+    for name in sorted(getattr(zone, "subzones", {}) or {}):
+        h.update(name.encode())
+        h.update(zone_digest(zone.subzones[name], depth + 1).encode())
+    return h.hexdigest()
+
+
 def snapshot(obj):
     if hasattr(obj, "model_dump"):
         return obj.model_dump()
+    if isinstance(obj, dict):
+        return {k: snapshot(v) for k, v in obj.items()}
+    if isinstance(obj, list):
+        return [snapshot(v) for v in obj]
     return copy.deepcopy(obj)
 
 
@@ -191,12 +221,12 @@ class C11(World):
             timing=sw.random() < 0.12,
             wrappers=sw.choice([0, 1, 1, 2]),
             n_problems=sw.choice([1, 2, 2, 3, 4]),
-            w_forms=[sw.choice([0, 1, 2]) for _ in FORMS],
+            w_forms=[sw.choice([0, 1, 2]) for _ in FORMS[:4]] + [sw.choice([0, 0, 1])],
             p_invalid=sw.choice([0, 0, 0.1, 0.2]),
             names=sw.choice([1, 2, len(NAMES)]),
         )
         if not any(swarm["w_forms"]):
-            swarm["w_forms"] = [1, 1, 1, 1]
+            swarm["w_forms"] = [1, 1, 1, 1, 0]
         corp = problems.corpus()
         small = [i for i, (_, p) in enumerate(corp) if len(p["streams"]) <= 30]
         probs = []
@@ -248,7 +278,7 @@ class C11(World):
         n_wr = 0
         for i in range(swarm["length"]):
             c = sched.randrange(swarm["clients"])
-            cand = [("svc", 6.0), ("clock", 10 * swarm["p_clock"])]
+            cand = [("svc", 6.0), ("clock", 10 * swarm["p_clock"]), ("mutate_own_dict", 0.35)]
             if swarm["wrappers"]:
                 cand += [("wload", 1.2 * swarm["wrappers"]), ("wrun", 0.3 * swarm["wrappers"])]
                 if n_wr:
@@ -264,6 +294,10 @@ class C11(World):
                 st = dict(op="svc", p=p, form=args.choices(FORMS, swarm["w_forms"])[0], name=args.choice(names), abort=abort)
             elif op == "clock":
                 st = dict(op="clock", dt=args.choice([0, 0, 1, 59, 3600, 86400, -1, -3600]))
+            elif op == "mutate_own_dict":
+                # the caller edits ITS OWN reusable dictionary after a call returned (then puts it back): results already
+                # handed out must not follow, i.e. they may not alias the caller's lists / dicts
+                st = dict(op="mutate_own_dict", p=p, what=args.choice(["scale_duty", "rename_stream", "drop_stream", "clear_options"]))
             elif op == "wload":
                 via = args.choice(["model_shared", "model_fresh", "json", "json"])
                 st = dict(op="wload", p=p, via=via, owner=args.randrange(swarm["clients"]), stem=args.choice(["case", "run A", "Project", f"prob{p}"]))
@@ -344,6 +378,7 @@ class C11(World):
 
         shared_dict: dict[tuple, dict] = {}
         shared_model: dict[tuple, object] = {}
+        shared_hybrid: dict[tuple, object] = {}
         used_shared = set()
         wrappers: list[dict] = []  # dict(obj, p, fc, name, src, snap)
         held: list[tuple] = []  # (result object, text)
@@ -401,6 +436,13 @@ class C11(World):
             return "ok:" + prng.digest(text)
 
         def check_held(step, skip_last=True):
+            for rec in wrappers:
+                zd = rec.get("zone_digest")
+                if zd is not None:
+                    tick("earlier_results")
+                    if zone_digest(rec["obj"].master_zone) != zd:
+                        V("earlier_results", "wrapper_master_zone_changed", step, "the analysed zone tree (problem tables) held by a wrapper changed after it was returned")
+                        rec["zone_digest"] = zone_digest(rec["obj"].master_zone)
             tick("earlier_results")
             for k, (obj, text) in enumerate(held[:-1] if skip_last else held):
                 try:
@@ -424,6 +466,39 @@ class C11(World):
                     if st["dt"] < 0 or st["dt"] >= 3600:
                         fault("clock_jump")
                     outcome = "ok"
+                elif op == "mutate_own_dict":
+                    p = st["p"] % len(probs)
+                    d = shared_dict.get((c, p))
+                    if d is None or not d.get("streams"):
+                        outcome = "skip"
+                    else:
+                        saved = copy.deepcopy(d)
+                        s0 = d["streams"][0]
+                        if st["what"] == "scale_duty":
+                            if isinstance(s0["heat_flow"], dict):
+                                s0["heat_flow"]["value"] = s0["heat_flow"]["value"] * 3.0
+                            else:
+                                s0["heat_flow"] = s0["heat_flow"] * 3.0
+                        elif st["what"] == "rename_stream":
+                            s0["name"] = s0["name"] + "_edited"
+                            s0["zone"] = "Edited zone"
+                        elif st["what"] == "drop_stream":
+                            d["streams"].pop()
+                        else:
+                            d["options"] = {"DO_VERTICAL_GCC": True}
+                        probe("caller_edited_own_dict")
+                        tick("earlier_results")
+                        for k, (obj, text) in enumerate(held):
+                            try:
+                                now = obj.model_dump_json()
+                            except Exception as e:
+                                now = f"<{type(e).__name__}>"
+                            if now != text:
+                                V("earlier_results", "aliases_callers_dict", step, f"a result handed out earlier changed when the caller edited its own input dictionary ({st['what']})")
+                                break
+                        d.clear()
+                        d.update(saved)
+                        outcome = "ok"
                 elif op == "svc":
                     p, form, name = st["p"] % len(probs), st["form"], st["name"]
                     fc = formclass(form)
@@ -431,6 +506,21 @@ class C11(World):
                         data = shared_dict.setdefault((c, p), copy.deepcopy(probs[p]))
                     elif form == "dict_copy":
                         data = copy.deepcopy(probs[p])
+                    elif form == "dict_of_models":
+                        # a dictionary whose stream / utility lists already hold validated schema objects, kept and re-used by the caller
+                        if (c, p) not in shared_hybrid:
+                            try:
+                                m0 = TargetInput.model_validate(copy.deepcopy(probs[p]))
+                                shared_hybrid[(c, p)] = dict(streams=list(m0.streams), utilities=list(m0.utilities), options=copy.deepcopy(m0.options), zone_tree=m0.zone_tree)
+                            except Exception:
+                                shared_hybrid[(c, p)] = None
+                        data = shared_hybrid[(c, p)]
+                        fc = "model"
+                        if data is None:
+                            data, fc = copy.deepcopy(probs[p]), "dict"
+                        elif ("hybrid", c, p) in used_shared:
+                            probe("shared_object_reused")
+                        used_shared.add(("hybrid", c, p))
                     elif form == "model_fresh":
                         try:
                             data = TargetInput.model_validate(copy.deepcopy(probs[p]))
@@ -526,6 +616,8 @@ class C11(World):
                             outcome = judge_call(step, st, key, kind, val, "wrapper_" + rec["fc"], fpb, data, snap, tr)
                             if had and kind == "ok" and held and len(held) >= 2 and held[-1][0] is held[-2][0]:
                                 held.pop()
+                            if kind == "ok" and rec.get("zone_digest") is None and w.master_zone is not None:
+                                rec["zone_digest"] = zone_digest(w.master_zone)
                             check_held(step)
                         else:
                             out_dir = os.path.join(scratch, f"out{st['w'] % len(wrappers)}")
@@ -562,6 +654,8 @@ class C11(World):
                                     paths = sorted(_gen_paths(snap, now))
                                     V("input_unchanged", ",".join(paths[:4]), step, f"wrapper's model changed during export at {paths[:6]}")
                             check_held(step, skip_last=False)
+                            if rec.get("zone_digest") is None and w.master_zone is not None:
+                                rec["zone_digest"] = zone_digest(w.master_zone)
                         if rec.get("filebytes") is not None:
                             tick("input_unchanged")
                             if open(rec["src"], "rb").read() != rec["filebytes"]:
